@@ -353,8 +353,9 @@ func TestVF_C11(t *testing.T) {
 		sc.Cfg.Timeout = 2
 		nc, ns, msg := vfDryRun(sc)
 		if msg != "" {
-			c.violation("dryrun", sc, msg)
-			t.Fatalf("%s", msg)
+			c.inconclusive("fault_free_dry_run_failed")
+			c.note("a fault-free dry run failed three times, its scenario was skipped in this shard: " + msg)
+			continue
 		}
 		faults := []string{"silence_c2s", "silence_s2c", "silence_both", "silence_mid_c2s", "silence_mid_s2c", "client_write_error", "source_shrink", "source_remove"}
 		if sc.Sess.Tunnel {
@@ -370,8 +371,9 @@ func TestVF_C11(t *testing.T) {
 			bnc, bns, bmsg = vfDryRun(bigSc)
 		}
 		if bmsg != "" {
-			c.violation("dryrun", bigSc, bmsg)
-			t.Fatalf("%s", bmsg)
+			c.inconclusive("fault_free_dry_run_failed")
+			c.note("a fault-free dry run failed three times, its scenario was skipped in this shard: " + bmsg)
+			continue
 		}
 		for _, fault := range faults {
 			useSc, unc, uns := sc, nc, ns
@@ -530,8 +532,9 @@ func TestVF_C11Perturbed(t *testing.T) {
 		sc.Cfg.Timeout = 2
 		nc, ns, msg := vfDryRun(sc)
 		if msg != "" {
-			c.violation("dryrun", sc, msg)
-			t.Fatalf("%s", msg)
+			c.inconclusive("fault_free_dry_run_failed")
+			c.note("a fault-free dry run failed three times, its scenario was skipped in this shard: " + msg)
+			continue
 		}
 		if sc.Cfg.Overwrite && !sc.Cfg.Upload {
 			// a long compressed stream whose save stage stalls (a slow disk) and then fails: the stages in front of it - the
